@@ -19,7 +19,7 @@ CHECKS = {
     ref="DESIGN.md section 5 (C07)"),
  "C01": dict(
     technique="TLA+ loader pipeline model (MC_Load: Parse/Align/Trim/Index, rounding lemma) checked by TLC + TLC trace validation (Trace_Load) of parse-only and fully loaded frames against the file image",
-    text="TLC exhausts the pipeline over a menu of rank files (half-microsecond ticks, optional steps/launch/kernel, 1-2 ranks with skew) with invariants Faithful, MinTsMeaning, EndIsTsPlusDur, NoTrimNoLoss, Rounding; 200/3000 generated file sets (1-4 ranks, mixed formats, fractional timestamps, epoch offsets up to 1.7e15) are parsed (sequentially and by the process pool) and loaded by the real code and every row is compared by TLC with the declarative image Image(F,u), the shift constant MinTs and end = ts + dur. In addition the object model Session.tla (15 public calls; 3375 histories of three calls enumerated by TLC) is replayed on real TraceAnalysis objects (120/1500 histories): after every call the loader's columns must be intact and the derived columns those the model predicts (Trace_Session).",
+    text="TLC exhausts the pipeline over a menu of rank files (half-microsecond ticks, optional steps/launch/kernel, 1-2 ranks with skew) with invariants Faithful, MinTsMeaning, EndIsTsPlusDur, NoTrimNoLoss, Rounding; 200/3000 generated file sets (1-4 ranks, mixed formats, fractional timestamps, epoch offsets up to 1.7e15) are parsed (sequentially and by the process pool) and loaded by the real code and every row is compared by TLC with the declarative image Image(F,u), the shift constant MinTs and end = ts + dur. In addition the object model Session.tla (15 public calls; 3375 histories of three calls enumerated by TLC) is replayed on real TraceAnalysis objects (120/1500 histories): after every call the loader's columns must be intact and the derived columns those the model predicts (Trace_Session). MC_Sessions (two live objects, all interleavings of three calls: Isolated, Commute) is model-checked here; its histories are replayed under the analyzer properties.",
     note="Name/category decoding via the real symbol table; base subtraction and JSON handling by the harness with exact arithmetic. " + TB,
     ref="DESIGN.md section 5 (C01)"),
  "C02": dict(
@@ -111,6 +111,12 @@ CHECKS = {
 
 NOT_YET = {}
 
+ISO_IDS = {"C04", "C05", "C06", "C07", "C08", "C09", "C10", "C11", "C13", "C14", "C15", "C16", "C17", "C20"}
+ISO = (" Object isolation (Sessions.tla / MC_Sessions, invariants Isolated, Commute): 24/200 TLC-simulated interleaved histories of public calls on two "
+       "live TraceAnalysis objects whose files share a folder are replayed; TLC (Trace_Sessions) requires every call of this property to return "
+       "what the same call returns in a fresh interpreter that only ever saw that object, and every returned value to be unchanged when digested "
+       "again after the whole history.")
+
 def main():
     props = [json.loads(l) for l in open(os.path.join(HERE, "properties.jsonl"))]
     checks, na = [], []
@@ -125,7 +131,7 @@ def main():
                 "evidence_file": f"/verif/evidence/{pid}.json",
                 "replay_cmd_template": f"./check {pid} --replay {{path}}",
                 "engine": "tlc+vf",
-                "level_claimed": {"category": "model_checking", "text": c["text"], "design_ref": c["ref"]},
+                "level_claimed": {"category": "model_checking", "text": c["text"] + (ISO if pid in ISO_IDS else ""), "design_ref": c["ref"]},
                 "level_note": c["note"],
                 "technique": c["technique"],
             })
